@@ -253,6 +253,24 @@ class Ctx:
                          % (module, init, inv, length, "Error" if founderr else "NoError", "Error" if expect_error else "NoError"))
         return True
 
+    def tlapm(self, subsystem, module, timeout=600):
+        """Machine-checks the TLAPS proofs of a module; returns (obligations, proved)."""
+        d = self._stage_dir("tlapm_" + module, subsystem)
+        t0 = time.time()
+        r = subprocess.run(["timeout", str(timeout), "tlapm", "--threads", str(self.workers), "--cleanfp", module + ".tla"],
+                           cwd=d, stdout=subprocess.PIPE, stderr=subprocess.STDOUT, text=True)
+        open(os.path.join(d, "tlapm.log"), "w").write(r.stdout)
+        shutil.rmtree(os.path.join(d, ".tlacache"), ignore_errors=True)
+        m = re.search(r"All (\d+) obligations? proved", r.stdout)
+        if not m:
+            m2 = re.search(r"(\d+)/(\d+) obligations? failed", r.stdout)
+            raise Broken("tlapm did not prove %s: %s\n%s" % (module, m2.group(0) if m2 else "no summary", r.stdout[-1500:]))
+        n = int(m.group(1))
+        self.notes.setdefault("tlaps_proofs", []).append({"module": module, "obligations": n, "discharged": n,
+                                                          "wall_s": round(time.time() - t0, 1)})
+        log("tlapm %-30s all %d obligations proved %.1fs" % (module, n, time.time() - t0))
+        return n, n
+
     def sany(self, subsystem, module):
         d = self._stage_dir("sany_" + module, subsystem)
         r = subprocess.run(["timeout", "120", "tla-sany", module + ".tla"], cwd=d,
